@@ -110,6 +110,8 @@ func snapshotCheck(prop string, mod func(*gridOpts), extraRule string) int {
 		c03ScaleInClause(rep)
 	case "C12":
 		c12CensusClause(rep)
+	case "C14":
+		c14ClaimsPhase(rep)
 	}
 	if prop == "C04" {
 		// orphans to adopt, released pods, pods re-created behind the cache: the ownership grid of C10
@@ -171,6 +173,6 @@ func init() {
 		return snapshotCheck("C12", nil, "Plus the census clause on the search driver: at every quiescent fixed point reached from the C02 seeds (thorough: after any single deviation) the counters equal a census of the live pods (total, ready, at current revision, at update revision); and a fault phase in which every status write is hit by a conflict (stale or refreshed cache), an InternalError or a lost response. Oracle on every status write: 0<=ready,current,updated<=replicas; observedGeneration = reconciled generation >= stored; currentRevision moves only to updateRevision and only when every claimed pod is updated and Ready.")
 	})
 	register("c14", "Parallel policy never waits (snapshot enumeration)", func([]string) int {
-		return snapshotCheck("C14", func(o *gridOpts) { o.Policies = []string{"Parallel"} }, "Oracle: an error-free reconcile creates every vacant desired ordinal and deletes every live pod outside the desired set; <=1 update delete.")
+		return snapshotCheck("C14", func(o *gridOpts) { o.Policies = []string{"Parallel"} }, "Plus a claims phase: sets with volume claim templates, per ordinal the pod absent/Ready/not Ready and its claims absent/present/being deleted. Oracle: a reconcile in which no request failed (a returned error that the controller made up itself is no excuse; a refused adoption on a stale cache is) creates every vacant desired ordinal and deletes every live pod outside the desired set; <=1 update delete.")
 	})
 }
